@@ -3,7 +3,7 @@
    numbers.  "Latest revision wins": the document a reader must see is the overlay of the revisions. *)
 From LV Require Import Base.Bytes Base.Sx Model.Obj.
 
-Record rev := { r_puts : list (oid * obj); r_dels : list oid }.
+Record revision := { r_puts : list (oid * obj); r_dels : list oid }.
 
 (* all generations of one object number *)
 Definition drop_num (m : objmap) (n : N) : objmap :=
@@ -12,11 +12,11 @@ Definition drop_num (m : objmap) (n : N) : objmap :=
 (* a later definition of object number n replaces every earlier generation of n; freeing n removes it *)
 Definition put_obj (m : objmap) (io : oid * obj) : objmap :=
   insert (drop_num m (fst (fst io))) (fst io) (snd io).
-Definition apply_rev (m : objmap) (r : rev) : objmap :=
+Definition apply_rev (m : objmap) (r : revision) : objmap :=
   fold_left (fun m id => drop_num m (fst id)) (r_dels r) (fold_left put_obj (r_puts r) m).
 
-Definition latest_wins (revs : list rev) : objmap := fold_left apply_rev revs [].
+Definition latest_wins (revs : list revision) : objmap := fold_left apply_rev revs [].
 
 (* the same, as a per-object-number lookup: the newest revision mentioning n decides *)
-Definition rev_mentions (r : rev) (n : N) : bool :=
+Definition rev_mentions (r : revision) (n : N) : bool :=
   existsb (fun io => (fst (fst io) =? n)%N) (r_puts r) || existsb (fun id => (fst id =? n)%N) (r_dels r).
